@@ -3,10 +3,10 @@
 // (format! on error paths dominates CBMC cost and is irrelevant to the contracts).
 #[derive(Debug)]
 pub enum QueryError {
-    ParseError,
+    ParseError(String),
     FatalError,
-    NotImplemented,
-    TypeError,
+    NotImplemented(String),
+    TypeError(String),
     Overflow,
 }
 #[allow(unused_macros)]
@@ -26,7 +26,7 @@ macro_rules! bail { ($kind:expr, $($t:tt)*) => { return Err(QueryError::from_kin
 impl QueryError {
     #[allow(dead_code)]
     pub fn from_kind(k: &str) -> QueryError {
-        if k.ends_with("TypeError") { QueryError::TypeError } else if k.ends_with("NotImplemented") { QueryError::NotImplemented }
-        else if k.ends_with("ParseError") { QueryError::ParseError } else { QueryError::FatalError }
+        if k.ends_with("TypeError") { QueryError::TypeError(String::new()) } else if k.ends_with("NotImplemented") { QueryError::NotImplemented(String::new()) }
+        else if k.ends_with("ParseError") { QueryError::ParseError(String::new()) } else { QueryError::FatalError }
     }
 }
